@@ -16,6 +16,10 @@
 //! * `crlf_twins` — the CRLF twin of every text document (plain and bgzipped), eager and lazy, with a refill
 //!   boundary (fill_buf window end / BGZF member end) at every offset of the file, plus BufReader capacities
 //!   1..=48 (thorough 4096); must read like the twin in one piece, which must read like the LF document.
+//! * `indexed`  — the indexed-access drivers of vnd::query (BAM+BAI, BCF+CSI, VCF.gz / GFF.gz / GTF.gz / BED.gz +
+//!   tabix, SAM.gz+CSI, FASTA.gz+fai+gzi, CRAM+crai) over `ChunkReader` (Read + Seek): Interrupted before every
+//!   read, Interrupted / a short transfer at exactly the k-th read call for every k, 1-byte and irregular reads;
+//!   the driver retries Interrupted as std's helpers do; the log must equal the one over the plain source.
 //! * `uniform`  — OneByte / InterruptEvery / Irregular / a fixed pattern, over every wrapper, including the
 //!   > 64 KiB documents.
 
@@ -822,6 +826,135 @@ fn main() {
                         obs,
                     )),
                 }
+            });
+        }
+
+        // ---- indexed: the indexed-access drivers (vnd::query: one reader, header, a sequence of region queries and
+        //      query_unmapped) over the read adversaries, the driver retrying ErrorKind::Interrupted as std's helpers
+        //      do (a failed call / iterator item is tried again). Oracle: the query log over the plain source.
+        {
+            struct Pair {
+                data: usize,
+                index: usize,
+                gzi: Option<usize>,
+                spec: Vec<String>,
+                /// Largest number of read calls any source instance of the fault-free run received.
+                calls: usize,
+            }
+            let run = |docs: &[Doc], p: (usize, usize, Option<usize>), mode: ReadMode| -> (Vec<String>, Vec<Vec<usize>>) {
+                let d = &docs[p.0];
+                let logs: Arc<Mutex<Vec<Arc<Mutex<Vec<usize>>>>>> = Arc::new(Mutex::new(Vec::new()));
+                let mk = || {
+                    let r = ChunkReader::new(d.bytes.clone(), mode.clone(), None).with_boundaries(d.boundaries.clone());
+                    logs.lock().unwrap().push(r.log.clone());
+                    r
+                };
+                let log = match p.2 {
+                    Some(g) => vnd::query::fasta_gz_query_log_over(mk(), &docs[p.1].bytes, &docs[g].bytes),
+                    None => vnd::query::query_log_over(d.format, &d.set, &mk, d.bytes.len(), docs[p.1].format, &docs[p.1].bytes),
+                };
+                let env = logs.lock().unwrap().iter().map(|l| l.lock().unwrap().clone()).collect();
+                (log, env)
+            };
+            let mut pairs: Vec<Pair> = Vec::new();
+            for (i, d) in docs.iter().enumerate() {
+                if d.big || d.raw || d.index_of.is_some() || d.name.starts_with("eng-") {
+                    continue;
+                }
+                let text_gz = d.format == Format::Bgzf && d.set.ends_with(".gz");
+                if !(text_gz || matches!(d.format, Format::Bam | Format::Bcf | Format::VcfGz | Format::SamGz | Format::Cram)) {
+                    continue;
+                }
+                let Some(index) = docs.iter().position(|x| x.index_of.as_deref() == Some(d.name.as_str()) && !x.name.contains("n_no_coor")) else { continue };
+                let gzi = docs.iter().position(|x| x.name == format!("gzi-of-{}", d.name));
+                if d.set == "fasta.gz" && gzi.is_none() {
+                    continue;
+                }
+                let gzi = if d.set == "fasta.gz" { gzi } else { None };
+                let (spec, env) = run(&docs, (i, index, gzi), ReadMode::Full);
+                pairs.push(Pair { data: i, index, gzi, spec, calls: env.iter().map(|e| e.len()).max().unwrap_or(0) });
+            }
+            let uniform: Vec<(ReadMode, &'static str)> = vec![
+                (ReadMode::InterruptEvery, "interrupt-before-every-read"),
+                (ReadMode::OneByte, "one-byte"),
+                (ReadMode::Irregular, "irregular"),
+                (ReadMode::Pattern(vec![1, 0, 2, 3, 0, 7, 64, 1]), "pattern"),
+                (ReadMode::Pattern(vec![18, 1, 8, 0, 4096]), "pattern"),
+            ];
+            // menu entries of one deviating call: the short transfers (1 byte, to / past / short of the next structural
+            // boundary, half; clamped to the menu) and Interrupted (the menu's last entry)
+            const ALTS: [usize; 6] = [1, 2, 3, 4, 5, usize::MAX];
+            let mut starts = Vec::new();
+            let mut total = 0usize;
+            for p in &pairs {
+                starts.push(total);
+                total += uniform.len() + p.calls * ALTS.len();
+            }
+            ctx.extra("indexed", vmc::json!({
+                "pairs": pairs.iter().map(|p| format!("{}+{}{} ({} read calls)", docs[p.data].name, docs[p.index].name, p.gzi.map(|g| format!("+{}", docs[g].name)).unwrap_or_default(), p.calls)).collect::<Vec<_>>(),
+                "cases": total,
+            }));
+            let (docs, pairs, starts, uniform, run) = (&docs, &pairs, &starts, &uniform, &run);
+            ctx.harness(Config::new("indexed", 0), move |ch: &Chooser| -> Outcome {
+                if total == 0 {
+                    return Ok(());
+                }
+                let i = ch.free("case", total);
+                let r = starts.partition_point(|&s| s <= i) - 1;
+                let p = &pairs[r];
+                let j = i - starts[r];
+                let (mode, name, class) = if j < uniform.len() {
+                    (uniform[j].0.clone(), uniform[j].1.to_string(), uniform[j].1)
+                } else {
+                    let k = (j - uniform.len()) / ALTS.len();
+                    let alt = ALTS[(j - uniform.len()) % ALTS.len()];
+                    if alt == usize::MAX {
+                        (ReadMode::DeviateAt(k as u64, alt), format!("Interrupted at exactly read call {k} of every source instance, full transfers otherwise"), "interrupted-at-one-call")
+                    } else {
+                        (ReadMode::DeviateAt(k as u64, alt), format!("read call {k} deviates with menu entry {alt} (short transfer), full transfers otherwise"), "short-transfer-at-one-call")
+                    }
+                };
+                let d = &docs[p.data];
+                ch.desc(|| format!("data={} index={} adversary={name}", d.name, docs[p.index].name));
+                let (log, env) = run(docs, (p.data, p.index, p.gzi), mode);
+                ch.obs_hash((p.data, &env));
+                ch.steps(env.iter().map(|e| e.len() as u64).sum());
+                if env.iter().any(|e| e.contains(&0)) {
+                    ch.tag("Interrupted delivered");
+                }
+                if log == p.spec {
+                    return Ok(());
+                }
+                let at = p.spec.iter().zip(log.iter()).position(|(a, b)| a != b).unwrap_or(p.spec.len().min(log.len()));
+                let a = p.spec.get(at).map(|s| s.as_str()).unwrap_or("<nothing>");
+                let b = log.get(at).map(|s| s.as_str()).unwrap_or("<nothing>");
+                let symptom = if b.contains(": done n=") && a.contains(" rec[") {
+                    "fewer-records-clean-end".to_string()
+                } else if b.contains(" rec[") && a.contains(": done n=") {
+                    "more-records".to_string()
+                } else if b.contains("Err(") && !a.contains("Err(") {
+                    format!("error kind={}", b.split("kind=").nth(1).and_then(|x| x.split(' ').next()).unwrap_or("?"))
+                } else if a.contains(" rec[") && b.contains(" rec[") {
+                    "record-differs".to_string()
+                } else {
+                    "log-differs".to_string()
+                };
+                let fmt = if d.format == Format::Bgzf { d.set.clone() } else { d.format.to_string() };
+                Err(Violation::new(
+                    format!("format={fmt} index={} api=indexed-query adversary={class} symptom={symptom}", docs[p.index].format),
+                    format!(
+                        "data={} ({} bytes) index={}{}: vnd::query::query_log_over (one reader: read_header, region queries, query_unmapped; Interrupted is retried by the driver) over ChunkReader: {name}; read sizes delivered per source instance (I = Interrupted): {}; data (hex): {}; index (hex): {}",
+                        d.name,
+                        d.bytes.len(),
+                        docs[p.index].name,
+                        p.gzi.map(|g| format!(" + {}", docs[g].name)).unwrap_or_default(),
+                        env.iter().map(|e| format!("[{}]", env_summary(e))).collect::<Vec<_>>().join(" "),
+                        if d.bytes.len() <= 1600 { hex_full(&d.bytes) } else { vmc::hex(&d.bytes) },
+                        hex_full(&docs[p.index].bytes)
+                    ),
+                    format!("the query log over the plain source; line {at}: {}", short(a)),
+                    format!("line {at}: {}", short(b)),
+                ))
             });
         }
 
